@@ -71,9 +71,9 @@ def build_plane(ps):
     from polliwog import Plane
     c = ps["ctor"]
     if c == "init":
-        return Plane(np.array(ps["ref"], dtype=np.float64), np.array(ps["n"], dtype=np.float64))
+        return Plane(shcopy(np.array(ps["ref"], dtype=np.float64)), shcopy(np.array(ps["n"], dtype=np.float64)))
     if c == "pn":
-        return Plane.from_point_and_normal(np.array(ps["ref"], dtype=np.float64), np.array(ps["n"], dtype=np.float64))
+        return Plane.from_point_and_normal(shcopy(np.array(ps["ref"], dtype=np.float64)), shcopy(np.array(ps["n"], dtype=np.float64)))
     if c in ("xy", "xz", "yz"):
         return getattr(Plane, c)
     raise ValueError(c)
